@@ -22,7 +22,7 @@ RULE = ("scenario = (items preloaded in the memcached model, client configuratio
         "and exact 4096-byte pieces. Oracle (metamorphic): result (value incl. type, or exception class) equals the "
         "unsplit result, which itself equals the expected value computed from what was stored; the receive queue is "
         "empty afterwards; nothing blocks. Non-trivial: a cut falls inside a CR LF, directly after one (line / data "
-        "block boundary), or inside the last 8 bytes (end token), or EINTR is injected.")
+        "block boundary), or inside the last 8 bytes (end token), or EINTR is injected. Also multi-key reads through a deserializer that fails on the first / middle / last returned value, with and without ignore_exc, on all client stacks and after an earlier failed read.")
 MANIFEST = {
     "category": "exploration",
     "technique": "metamorphic testing over enumerated segmentations (all cut subsets for short reply streams, all 1-3 cut combinations for medium ones, receive-size-aligned cuts for long ones) of a scenario corpus produced by a memcached model, plus Hypothesis-drawn values and cut lists",
@@ -51,8 +51,26 @@ def _env(scn, schedule):
     return env
 
 
+class FailingSerde:
+    """values pass through; reading back the value of one of the named keys fails (an old pickle, foreign data)"""
+
+    def __init__(self, names):
+        self.names = [n.encode() for n in names]
+
+    def serialize(self, key, value):
+        return value, 0
+
+    def deserialize(self, key, value, flags):
+        k = key if isinstance(key, bytes) else str(key).encode()
+        if any(k.endswith(n) for n in self.names):
+            raise ValueError("cannot deserialize the value of %r" % (key,))
+        return value
+
+
 def _call(env, scn):
-    cfg = scn.get("cfg", {})
+    cfg = dict(scn.get("cfg", {}))
+    if "fail_on" in cfg:
+        cfg["serde"] = FailingSerde(cfg.pop("fail_on"))
     c = env.client(scn.get("kind", "client"), **cfg)
     r = scn["op"]
     # optional history: earlier calls on the SAME client object, delivered unsplit in both runs (their replies are
@@ -247,6 +265,17 @@ def corpus(sizes=(0, 1, 4090, 4094, 4095, 4096, 4097, 4098, 8190, 8192, 8194, 10
     out.append(S({"op": "set_many", "values": {"a": b"1", "b": b"2", "c": b"3"}, "noreply": False}, [], refuse={"b": "too-large"}))
     out.append(S({"op": "set_many", "values": {"a": b"1", "b": b"2", "c": b"3"}, "noreply": False}, [], refuse={"c": "oom"}))
     out.append(S({"op": "delete_many", "keys": ["a", "b", "c", "d"], "noreply": False}, [(b"a", b"x", 0), (b"c", b"x", 0)], expect=True))
+    # a deserializer that fails on one of the values of a multi-key read, first / in the middle / last, with and without ignore_exc
+    three = [(b"a", b"1", 0), (b"b", b"two\r\nEND\r\n", 0), (b"c", b"333", 5)]
+    for bad in ("a", "b", "c"):
+        for ie in (True, False):
+            for kind in ("client", "pooled", "hash"):
+                cfg = {"fail_on": [bad], "ignore_exc": ie}
+                out.append(S({"op": "get_many", "keys": ["a", "b", "c"]}, three, cfg=cfg, kind=kind))
+                if kind == "client":
+                    out.append(S({"op": "gets_many", "keys": ["c", "b", "a"]}, three, cfg=dict(cfg, key_prefix=b"p:")))
+                    out.append(S({"op": "get", "key": bad}, three, cfg=cfg))
+                    out.append(S({"op": "get_many", "keys": ["a", "b", "c"]}, three, cfg=cfg, history=[{"op": "get", "key": bad}]))
     # several commands sent through one raw_command: the reply starts with a one-line answer (STORED, DELETED, OK, TOUCHED,
     # a number ...) and goes on until the end token of the last command
     out.append(S({"op": "raw_command", "command": b"set k 0 0 1\r\nv\r\nget k", "end": b"END\r\n"}, [], expect=b"STORED\r\nVALUE k 0 1\r\nv\r\n"))
